@@ -120,6 +120,43 @@ def gen_tree(rng, depth=0, nmax=6):
     return out          # list of [key, leaf] keeps order and non-str keys
 
 
+def tree_from_object(d):
+    """Typed-leaf tree (same shape as gen_tree's) for a real result dictionary:
+    leaves keep the object itself under 'obj'."""
+    out = []
+    for k, v in d.items():
+        out.append([k, leaf_from_object(v)])
+    return out
+
+
+def leaf_from_object(v):
+    if isinstance(v, dict):
+        return {'t': 'dict', 'v': tree_from_object(v)}
+    if isinstance(v, (bool, np.bool_)):
+        return {'t': 'bool', 'obj': bool(v)}
+    if isinstance(v, (int, np.integer)):
+        return {'t': 'int', 'obj': int(v)}
+    if isinstance(v, (float, np.floating)):
+        return {'t': 'float', 'obj': float(v)}
+    if isinstance(v, str):
+        return {'t': 'str', 'obj': v}
+    if isinstance(v, np.ndarray):
+        return {'t': 'array', 'obj': v}
+    if isinstance(v, (list, tuple)):
+        if any(isinstance(x, str) for x in v):
+            return {'t': 'strlist', 'obj': list(v)}
+        if any(isinstance(x, dict) for x in v):
+            return {'t': 'dictlist', 'v': [tree_from_object(x) for x in v]}
+        try:
+            a = np.array(v)
+            if a.dtype != object:
+                return {'t': 'list', 'obj': list(v)}
+        except Exception:
+            pass
+        return {'t': 'raggedobj', 'v': [leaf_from_object(x) for x in v]}
+    return {'t': 'unsupported', 'obj': repr(type(v))}
+
+
 def materialise(tree):
     d = {}
     for k, leaf in tree:
@@ -129,6 +166,8 @@ def materialise(tree):
 
 def mat_leaf(leaf):
     t = leaf['t']
+    if 'obj' in leaf:
+        return leaf['obj']
     if t in ('float', 'int', 'bool', 'str'):
         return leaf['v']
     if t == 'npfloat':
@@ -170,9 +209,20 @@ def generate(run_seed, tier):
     st = Streams(run_seed)
     c = st('config')
     cfg = {'R': c.choice([1, 1, 2, 3]), 'part': c.choice(
-        ['dict', 'dict', 'spectrum', 'reload', 'reload'])}
+        ['dict', 'dict', 'spectrum', 'reload', 'reload', 'solution'])}
     o = st('ops')
     ops = [['open', 'w']]
+    if cfg['part'] == 'solution':
+        from checks import c09
+        fc = c09.generate(c.randrange(2**62), tier)['config']
+        # (toy models return tau=None, which no output file can hold)
+        while fc['sampler'] == 'nestle_real' or \
+                fc['model'].get('kind') == 'toy':
+            fc = c09.generate(c.randrange(2**62), tier)['config']
+        fc['R'] = 1
+        cfg['fitcfg'] = fc
+        ops += [['store_solution'], ['close']]
+        return {'config': cfg, 'ops': ops}
     if cfg['part'] in ('spectrum', 'reload'):
         fam = c.choice(['transmission', 'emission', 'directimage']) \
             if cfg['part'] == 'reload' else c.choice(['transmission',
@@ -277,6 +327,10 @@ def plan_ops(ops):
             if parent in groups and full not in all_groups:
                 all_groups.add(full)
                 out.append(op)
+        elif k == 'store_solution':
+            if ('Output',) not in all_groups:
+                all_groups.add(('Output',))
+                out.append(op)
         elif k in ('store_spectrum', 'write_model'):
             nm = op[3] if k == 'store_spectrum' else 'ModelParameters'
             if (nm,) not in all_groups:
@@ -369,6 +423,15 @@ def compare_tree(viol, path, tree, group, faults):
                 compare_leaf(viol, path + ['%s%d' % (name, i)],
                              {'t': 'dict', 'v': sub}, node, faults)
             continue
+        if leaf['t'] == 'raggedobj':
+            for i, sub in enumerate(leaf['v']):
+                if sub['t'] in ('dict',):
+                    compare_leaf(viol, path + ['%s%d' % (name, i)], sub,
+                                 group.get('%s%d' % (name, i)), faults)
+                else:
+                    compare_tree(viol, path, [['%s%d' % (name, i), sub]],
+                                 group, faults)
+            continue
         if leaf['t'] == 'ragged' and len(set(len(r) for r in leaf['v'])) == 1:
             compare_leaf(viol, path + [name], {'t': 'list2d', 'v': leaf['v']},
                          group.get(name), faults)
@@ -413,6 +476,23 @@ def execute(case, keep_text=False):
     has_model = cfg['part'] in ('spectrum', 'reload')
     if has_model:
         R.install_opacities(cfg['model'])
+    if cfg['part'] == 'solution':
+        Rn = 1
+    fitres = {}
+    if cfg['part'] == 'solution':
+        from checks import c09
+        c09.execute({'config': cfg['fitcfg'], 'ops': []},
+                    after_fit=lambda **kw: fitres.update(kw))
+        w = fitres.get('world')
+        if w is None or w.errors[0] is not None or w.deadlock or \
+                fitres['solutions'][0] is None:
+            # the fit itself failed: C09's business, nothing to store here
+            out.bump('probes', 'fit_failed_before_store')
+            out.digest = log.digest()
+            out.signature = 'fitfail'
+            shutil.rmtree(scratch, ignore_errors=True)
+            return out
+        out.bump('probes', 'solution_store_run')
     spectra_written = {}       # group name -> (binner kind, size, native result)
     written_model = [None]
     types_seen = set()
@@ -463,6 +543,13 @@ def execute(case, keep_text=False):
                                                np.array(res[1]),
                                                np.array(res[2])])
                 o.store_dictionary(spec, group_name=op[3])
+            elif k == 'store_solution':
+                sol = fitres['solutions'][0]
+                opt = fitres['opts'][0]
+                outg = o.create_group('Output')
+                outg.store_dictionary(sol, group_name='Solutions')
+                opt.write(o)
+                opt._observed.write(o.create_group('Observed'))
             elif k == 'write_model':
                 model.write(o)
                 if r == 0:
@@ -532,6 +619,34 @@ def execute(case, keep_text=False):
                     node = par.get(op[2])
                     compare_leaf(viol, list(op[1]) + [op[2]],
                                  {'t': 'dict', 'v': op[3]}, node, None)
+            if fitres:
+                sol = fitres['solutions'][0]
+                opt = fitres['opts'][0]
+                node = f.get('Output/Solutions')
+                compare_leaf(viol, ['Output', 'Solutions'],
+                             {'t': 'dict', 'v': tree_from_object(sol)}, node,
+                             None)
+                og = f.get('Optimizer')
+                if og is None:
+                    viol('missing', 'group', 'Optimizer')
+                else:
+                    names = [_decode(x) for x in
+                             np.asarray(og['fit_parameter_names'][()]).ravel()]
+                    if names != list(opt.fit_names):
+                        viol('value-changed', 'optimizer:fit_parameter_names',
+                             '%s vs %s' % (names, list(opt.fit_names)))
+                obs_g = f.get('Observed')
+                if obs_g is None:
+                    viol('missing', 'group', 'Observed')
+                else:
+                    for key, want in (('spectrum', opt._observed.spectrum),
+                                      ('errorbars', opt._observed.errorBar),
+                                      ('wlgrid', opt._observed.wavelengthGrid),
+                                      ('binwidths', opt._observed.binWidths)):
+                        if key not in obs_g or not _arr_equal(obs_g[key][()],
+                                                              want):
+                            viol('value-changed', 'observed:' + key,
+                                 'stored observation differs')
             # ---- stored spectra describe themselves consistently
             for gname, (bkind, size, res) in spectra_written.items():
                 g = f.get(gname)
